@@ -136,11 +136,44 @@ func (e *Engine) indexFunc(p *ssa.Package, f *ssa.Function) {
 func (e *Engine) verifyFunc(f *ssa.Function) *FnRun {
 	r := &FnRun{eng: e, fn: f, relName: e.relName(f), declSet: map[string]bool{}, loops: map[*ssa.Function]*loopInfo{},
 		unmodelled: map[string]bool{}, inlined: map[string]bool{}, modelsUsed: map[string]bool{}, calleesByContract: map[string]bool{},
-		pureIfaces: map[string]bool{}, userCalls: map[string]bool{}, spawned: map[string]bool{}, rootOf: map[string]string{}}
+		pureIfaces: map[string]bool{}, userCalls: map[string]bool{}, spawned: map[string]bool{}, rootOf: map[string]string{}, closedWorld: map[string]bool{}}
 	r.cs = e.contractSetFor(f)
 	r.fc = e.contractFor(f)
 	if r.cs == nil {
 		r.cs = newContractSet()
+	}
+	if r.fc != nil && len(r.fc.Implements) > 0 && !r.fc.merged {
+		r.fc.merged = true
+		for _, ft := range r.fc.Implements {
+			if tc := r.cs.Funcs["functype:"+ft]; tc != nil {
+				// positional renaming of the functype's parameter/result names to this function's
+				ren := map[string]string{}
+				for i, n := range tc.Params {
+					if i < len(r.fc.Params) {
+						ren[n] = r.fc.Params[i]
+					}
+				}
+				for i, n := range tc.Results {
+					if i < len(r.fc.Results) {
+						ren[n] = r.fc.Results[i]
+					}
+				}
+				for _, c := range tc.Clauses {
+					if c.Kind == "requires" || c.Kind == "ensures" {
+						nc := *c
+						nc.E = renameExpr(c.E, ren)
+						if nc.Label == "" {
+							nc.Label = fmt.Sprintf("%s.line%d", ft, c.Line)
+						} else {
+							nc.Label = ft + "." + nc.Label
+						}
+						r.fc.Clauses = append(r.fc.Clauses, &nc)
+					}
+				}
+			} else {
+				r.errs = append(r.errs, fmt.Sprintf("%s: implements unknown functype %s", r.relName, ft))
+			}
+		}
 	}
 	defer func() {
 		if x := recover(); x != nil {
@@ -183,6 +216,13 @@ func (e *Engine) verifyFunc(f *ssa.Function) *FnRun {
 		st.assume("(> " + v.S + " 0)")
 	}
 	vars := bindNames(r.fc, f, f.Signature, f.Signature.Recv() != nil, args)
+	for _, fv := range f.FreeVars {
+		// captured variables are visible in clauses by name, as their contents at entry
+		func() {
+			defer func() { recover() }()
+			vars[fv.Name()] = st.load(st.derefLoc(st.regs[fv]))
+		}()
+	}
 	st.params = vars
 	// free variables are visible by name in clauses as their current contents (resolved through localByName)
 	if r.fc != nil {
@@ -262,7 +302,7 @@ func safeVal(ctx *EvalCtx, e *Expr, file string, line int) (v *V, err error) {
 func (r *FnRun) checkReturn(st *State, fr *frame, res []*V) {
 	r.returnsSeen++
 	ord := r.returnsSeen
-	if ord <= 3 {
+	if ord <= 8 {
 		r.obls = append(r.obls, &Obligation{Name: fmt.Sprintf("%s/canary:return%d", r.relName, ord), Func: r.relName, Pkg: r.fn.Pkg.Pkg.Path(), Kind: "canary", Label: "return",
 			Query: &Query{Asserts: st.pcList(), Goal: "false"}, ClauseKey: r.relName + "/canary:return", Expect: "sat", PathDesc: strings.Join(st.trail, " > ")})
 	}
@@ -410,3 +450,20 @@ func sanitize(s string) string {
 }
 
 var _ = time.Now
+
+func renameExpr(e *Expr, ren map[string]string) *Expr {
+	if e == nil {
+		return nil
+	}
+	n := *e
+	if e.Op == "id" {
+		if x, ok := ren[e.Name]; ok {
+			n.Name = x
+		}
+	}
+	n.Args = nil
+	for _, a := range e.Args {
+		n.Args = append(n.Args, renameExpr(a, ren))
+	}
+	return &n
+}
